@@ -4,7 +4,7 @@ use c02::p::MACRO_SHAPES;
 use vcore::proptest::prelude::*;
 use vcore::Level as VLevel;
 
-const RULE: &str = "runtime cases: a key/value list (12-name alphabet with \"\", non-ASCII, prefix-related and well-known names, so duplicates are frequent; plus arbitrary short Unicode keys) realised as a tree (depth <= 4) of the real emit collection types (pair, slice/array of pairs, slice of nested collections, BTreeMap, HashMap, Option, And, Box, Arc, &, dyn ErasedProps x3 call paths, dedup(), as_map(), Empty, Span, Metric, Extent, SpanCtxt, cloned ambient frames, fixed props! sites) observed directly, as an ambient snapshot inside with_current (generic / & / Option / dyn ErasedCtxt / Box<dyn + Send + Sync> / Arc / traceparent) or as the props of an event built by emit_core::emit; non-trivial = the enumeration contains a duplicate key or the tree has nesting depth >= 2. program cases: one generated emit::props!/evt!/emit!/format! call site with 1-8 keys; non-trivial = >= 3 keys and >= 1 renamed, optional or cfg-gated key.";
+const RULE: &str = "runtime cases: a key/value list (12-name alphabet with \"\", non-ASCII, prefix-related and well-known names, so duplicates are frequent; plus arbitrary short Unicode keys) realised as a tree (depth <= 4) of the real emit collection types (pair, slice/array of pairs, slice of nested collections, BTreeMap, HashMap, Option, And, Box, Arc, &, dyn ErasedProps x3 call paths, dedup(), as_map(), Empty, Span, Metric, Extent, SpanCtxt, cloned ambient frames, nine fixed props! sites incl. 18- and 34-key ones with reordering renames; about 7 % of the cases enumerate > 16 and 2.5 % > 32 entries) observed directly, as an ambient snapshot inside with_current (generic / & / Option / dyn ErasedCtxt / Box<dyn + Send + Sync> / Arc / traceparent) or as the props of an event built by emit_core::emit; non-trivial = the enumeration contains a duplicate key or the tree has nesting depth >= 2. program cases: one generated emit::props!/evt!/emit!/format! call site with 1-40 keys (mostly 1-8, a solid share of 9-16 and 17-40); non-trivial = >= 3 keys and >= 1 renamed, optional or cfg-gated key.";
 
 const KEYS: [&str; 24] = [
     "a", "b", "ab", "A", "", "é", "abc", "éa", "a.b", "a b", "k", "z", "c", "evt_kind", "span_name", "trace_id", "span_id", "span_parent", "ts", "ts_start",
@@ -46,6 +46,30 @@ fn kvs(max: usize) -> impl Strategy<Value = Vec<Kv>> {
     ]
 }
 
+/// Wide lists (size thresholds such as "scan up to 16, bisect above" are a classic place for bugs): 17-40 pairs,
+/// keys mostly from a 48-name alphabet `w00..w47` (so many distinct keys) mixed with the small alphabet (duplicates).
+fn wide_kvs() -> impl Strategy<Value = Vec<Kv>> {
+    let wkey = prop_oneof![
+        6 => (0u32..48).prop_map(|i| format!("w{i:02}")),
+        1 => key(),
+    ];
+    prop_oneof![
+        3 => prop::collection::vec((wkey.clone(), val()), 17..=24),
+        2 => prop::collection::vec((wkey.clone(), val()), 25..=32),
+        2 => prop::collection::vec((wkey, val()), 33..=40),
+    ]
+}
+
+fn wide_leaf() -> impl Strategy<Value = Spec> {
+    prop_oneof![
+        3 => wide_kvs().prop_map(Spec::Slice),
+        2 => (wide_kvs(), 0u8..2).prop_map(|(k, t)| Spec::BTree(k, t)),
+        2 => wide_kvs().prop_map(Spec::Hash),
+        2 => wide_kvs().prop_map(|k| Spec::Dedup(Box::new(Spec::Slice(k)))),
+        1 => wide_kvs().prop_map(|k| Spec::Frame(vec![(false, k)])),
+    ]
+}
+
 fn leaf() -> impl Strategy<Value = Spec> {
     let ext = prop_oneof![(0u32..100).prop_map(ExtSpec::Point), (0u32..100, 0u32..100).prop_map(|(a, b)| ExtSpec::Range(a, b))];
     let id64 = || prop_oneof![2 => (1u64..).prop_map(Some), 1 => Just(None), 1 => Just(Some(0u64))];
@@ -61,6 +85,7 @@ fn leaf() -> impl Strategy<Value = Spec> {
         1 => (id64(), id64(), id64()).prop_map(|(t, p, s)| Spec::SpanCtxt { trace: t.map(|v| v as u128), parent: p, span: s }),
         2 => prop::collection::vec((prop::bool::weighted(0.15), kvs(3)), 0..3).prop_map(Spec::Frame),
         1 => (0u8..MACRO_SHAPES, prop::collection::vec(val(), 4)).prop_map(|(s, v)| Spec::Macro(s, v)),
+        1 => wide_leaf(),
     ]
 }
 
@@ -113,10 +138,25 @@ fn main() {
             s.require("erased", 3000);
             s.require("hash-backed", 3000);
             s.require("depth>=2", 3000);
+            s.require("len>16", 1500);
+            s.require("len>32", 500);
+            s.require("dedup-over->16", 300);
+            s.require("macro-props->16-reordering-rename", 100);
             s.gen("runtime-trees", s.n(300_000, 3_000_000), case, check_case);
+
+            // artifacts of the libFuzzer target `props_tree` (engine E6) are replayed through the same entry
+            s.manual("fuzz-artifact", Vec::<Vec<u8>>::new(), |bytes, cx| {
+                cx.nontrivial(true);
+                match c02::fuzz_entry(bytes) {
+                    Ok(()) => Ok(()),
+                    Err(f) => cx.fail(f.sig, format!("{}; decoded case: {:?}", f.msg, c02::fuzz::decode(bytes))),
+                }
+            });
 
             // ---- generated programs of macro call sites (engine E5)
             s.require("renamed-reorders-sort", 8);
+            s.require("site-keys:9-16", 3);
+            s.require("site-keys>=17-with-reordering-rename", 2);
             let runner = c02::prog::Runner::new();
             let args: Vec<String> = std::env::args().collect();
             let selected = match args.iter().position(|a| a == "--only") {
